@@ -69,6 +69,10 @@ class Program:
                 self.load(it['items'], file)
 
 
+class NeedFork(Exception):
+    """pure (merging) evaluation is not possible here: fall back to forking"""
+
+
 class Prefix:
     """A point in the execution tree: branch decisions + memoised solver answers up to it."""
     __slots__ = ('dec', 'qlog')
@@ -92,6 +96,7 @@ class Exec:
         self.overrides = {}
         self.encoded = {}          # (file, line, name) -> count
         self.type_hint = None
+        self.pure = 0
         self.incomplete_reasons = {}
         from . import lib
         lib.install(self)
@@ -201,11 +206,12 @@ class Exec:
             return True
         if z3.is_false(cond):
             return False
+        if self.pure:
+            raise NeedFork()
         if self.pos < len(self.decisions):
             d = self.decisions[self.pos]
             self.pos += 1
             self.solver.add(cond if d else z3.Not(cond))
-            self.stats['transitions'] += 0
             return d
         q0 = self.qpos
         can_t = self.sat(cond)
@@ -407,6 +413,15 @@ class Exec:
         env = c.env + [{}]
         for p, a in zip(c.params, args):
             self.bind(p, a, env)
+        if not self.pure and args and all(isinstance(a, CharV) for a in args):
+            # closures over a single char are evaluated without forking when they are pure (If-merging)
+            self.pure += 1
+            try:
+                return self.eval(c.body, env)
+            except NeedFork:
+                pass
+            finally:
+                self.pure -= 1
         saved = self.tys
         if c.tys is not None:
             self.tys = c.tys
@@ -862,6 +877,10 @@ class Exec:
 
     def e_binary(self, e, env):
         op = e['op']
+        if self.pure and op in ('&&', '||'):
+            a = self.eval(e['l'], env)
+            b = self.eval(e['r'], env)
+            return self.land(a, b) if op == '&&' else self.lor(a, b)
         if op == '&&':
             if not self.branch(self.eval(e['l'], env)):
                 return False
@@ -1091,7 +1110,24 @@ class Exec:
         elif isinstance(v2, Guard):
             self.release_guard(v2)
 
+    def ite(self, c, a, b):
+        a, b = self.deref(a), self.deref(b)
+        if isinstance(a, CharV) and isinstance(b, CharV):
+            return CharV(z3.If(c, a.t, b.t))
+        if isinstance(a, (BV, IntLit)) and isinstance(b, (BV, IntLit)):
+            a, b = self.coerce(a, b)
+            return BV(z3.If(c, a.t, b.t), a.bits, a.signed)
+        if (isinstance(a, bool) or z3.is_bool(a)) and (isinstance(b, bool) or z3.is_bool(b)):
+            return z3.If(c, a if not isinstance(a, bool) else z3.BoolVal(a), b if not isinstance(b, bool) else z3.BoolVal(b))
+        raise NeedFork()
+
     def e_if(self, e, env):
+        if self.pure and e['cond']['k'] != 'let_cond' and not self.has_let(e['cond']) and e['else']:
+            c = self.eval(e['cond'], env)
+            if not isinstance(c, bool):
+                c = z3.simplify(c)
+                if not (z3.is_true(c) or z3.is_false(c)):
+                    return self.ite(c, self.block(e['then'], env), self.eval(e['else'], env))
         env.append({})
         try:
             taken = self.cond(e['cond'], env)
